@@ -118,6 +118,14 @@ pub fn run_single(text: &str, ty: &Ty, cfg: &Cfg) -> String {
         Ok(Err(e)) => err_tok(&e),
     };
     if valid != ans { return format!("VALIDATING-ENTRY-DIFFERS plain: {ans} ; from_str_with_options_valid: {valid}"); }
+    // and the whole-input entry point itself (`from_str_with_options` has its own copy of the single-document check; the runs
+    // above go through the closure helper)
+    let direct = match catch(|| serde_saphyr::from_str_with_options::<Dyn>(text, cfg.options())) {
+        Err(msg) => format!("panic {}", hex(&msg)),
+        Ok(Ok(v)) => format!("ok {}", v.0.tokens()),
+        Ok(Err(e)) => err_tok(&e),
+    };
+    if direct != ans { return format!("FROM-STR-DIFFERS-FROM-CLOSURE-HELPER helper: {ans} ; from_str_with_options: {direct}"); }
     ans
 }
 
